@@ -170,7 +170,8 @@ def cases(draw):
         c["opts"] = VECS[draw(st.integers(6, len(VECS) - 1))]
         return c
     c = draw(callgraph.callgraph_cases())
-    c["opts"] = VECS[draw(st.integers(0, len(VECS) - 1))]
+    # vectors that keep functions out of line are drawn twice as often (deeper dynamic call stacks)
+    c["opts"] = VECS[draw(st.sampled_from([0, 1, 1, 2, 3, 3, 4, 4, 5, 6, 7, 7, 8, 8, 9]))]
     return c
 
 
